@@ -2,7 +2,7 @@
    epoll_pwait is called (invariant KI), under the strict usage discipline:
    one live handle per descriptor number, a descriptor is closed only after
    the handles on it.  Counter-examples without the discipline are at the end. *)
-From UV Require Import Lib.Base Model.IoWatch Proofs.IoWatchProofs.
+From UV Require Import Lib.Base Model.IoWatch Proofs.IoWatchProofs Proofs.IoWatchProofsN.
 Local Open Scope Z_scope.
 
 Definition livei (s : state) (i : nat) : Prop :=
@@ -27,7 +27,7 @@ Record KI (s : state) : Prop := mkKI {
   k_unreg : forall i, reg s (h_fd (hget s i)) <> Some i ->
             h_pev (hget s i) = m0 /\ h_ev (hget s i) = m0;
   k_uniq : forall i j, livei s i -> livei s j -> h_fd (hget s i) = h_fd (hget s j) -> i = j;
-  k_open : forall i, livei s i -> fdt s (h_fd (hget s i)) <> None;
+  k_fdopen : forall i, livei s i -> fdt s (h_fd (hget s i)) <> None;
   k_ep : forall fd o m, ep s fd o = Some m ->
             fdt s fd = Some o /\ exists i, livei s i /\ h_fd (hget s i) = fd;
   k_pairs : forall fd o, fdt s fd = Some o -> In (fd, o) (pairs s)
@@ -44,7 +44,7 @@ Definition kview (h : handle) := (h_fd h, h_pev h, h_ev h, h_closed h).
 
 Lemma KI_ext s s' :
   length (hs s') = length (hs s) -> (forall i, kview (hget s' i) = kview (hget s i)) ->
-  reg s' = reg s -> wq s' = wq s -> fdt s' = fdt s -> ep s' = ep s -> pairs s' = pairs s ->
+  reg s' = reg s -> wq s' = wq s -> fdt s' = fdt s -> (forall x y, ep s' x y = ep s x y) -> pairs s' = pairs s ->
   sq s' = sq s -> strict s' = strict s -> aborted s' = aborted s -> KI s -> KI s'.
 Proof.
   intros Hl Hv Hr Hw Hf He Hp Hq Hs Ha K.
@@ -55,9 +55,9 @@ Proof.
   assert (Vl : forall i, livei s' i <-> livei s i) by (intro i; unfold livei; rewrite Hl, Vc; tauto).
   destruct K. constructor; try congruence.
   - intros fd i H. rewrite Hr in H. rewrite Vl, Vf, Vp. auto.
-  - intros fd i H. rewrite Hr in H. rewrite Hw. unfold synced. rewrite Ve, Vp, Hf, He. apply k_sync0; auto.
+  - intros fd i H. rewrite Hr in H. rewrite Hw. unfold synced. rewrite Ve, Vp, Hf. setoid_rewrite He. apply k_sync0; auto.
   - intros i H. rewrite Hw in H. rewrite Hr, Vf. auto.
-  - intros fd i H H2. rewrite Hr in H. rewrite Ve in H2. rewrite Hf, He. eauto.
+  - intros fd i H H2. rewrite Hr in H. rewrite Ve in H2. rewrite Hf. setoid_rewrite He. eauto.
   - intros i H. rewrite Hr, Vf in H. rewrite Vp, Ve. auto.
   - intros i j Hi Hj. rewrite !Vl in *. rewrite !Vf. auto.
   - intros i Hi. rewrite Vl in Hi. rewrite Hf, Vf. auto.
@@ -70,9 +70,10 @@ Lemma KI_same s s' :
   hs s' = hs s -> reg s' = reg s -> wq s' = wq s -> fdt s' = fdt s -> ep s' = ep s -> pairs s' = pairs s ->
   sq s' = sq s -> strict s' = strict s -> aborted s' = aborted s -> KI s -> KI s'.
 Proof.
-  intros Hh. intros. eapply KI_ext; eauto.
-  - rewrite Hh; auto.
-  - intro i. unfold hget. rewrite Hh. auto.
+  intros Hh.
+  assert (A1 : length (hs s') = length (hs s)) by (rewrite Hh; auto).
+  assert (A2 : forall i, kview (hget s' i) = kview (hget s i)) by (intro i; unfold hget; rewrite Hh; auto).
+  intros Hr Hw Hf He. intros. apply (KI_ext s s'); auto. intros; rewrite He; auto.
 Qed.
 
 Lemma KI_init r : KI (sinit r true).
@@ -90,4 +91,717 @@ Proof.
   intros K Hw. split.
   - intros fd i H. destruct (k_sync s K _ _ H) as [Hin|[_ Hs]]; auto. rewrite Hw in Hin. contradiction.
   - apply (k_ep s K).
+Qed.
+
+Lemma livei_same s s' i :
+  length (hs s') = length (hs s) -> h_closed (hget s' i) = h_closed (hget s i) -> (livei s' i <-> livei s i).
+Proof. intros Hl Hc. unfold livei. rewrite Hl, Hc. tauto. Qed.
+
+Lemma NoDup_app_one {A} (l : list A) x : NoDup l -> ~ In x l -> NoDup (l ++ [x]).
+Proof.
+  intros Hn Hx. induction Hn as [|y l Hy Hn IH]; cbn.
+  - constructor; auto. constructor.
+  - constructor.
+    + intro Hc. apply in_app_or in Hc. destruct Hc as [|[->|[]]]; auto. apply Hx. left; auto.
+    + apply IH. intro Hc. apply Hx. right; auto.
+Qed.
+
+Lemma reg_dec s fd i : {reg s fd = Some i} + {reg s fd <> Some i}.
+Proof. destruct (reg s fd) as [j|]; [destruct (Nat.eq_dec j i); [left|right]; congruence|right; discriminate]. Qed.
+
+(* uv__io_stop keeps the invariant (it may leave a stale kernel entry behind,
+   which belongs to a live handle whose descriptor is open) *)
+Lemma KI_io_stop s i ev : KI s -> (i < length (hs s))%nat -> KI (io_stop s i ev).
+Proof.
+  intros K Hl.
+  destruct (io_stop_same s i ev) as [[_ [_ [_ [_ [Sq [_ [Ss Sa]]]]]]] [Sf [Se Sp]]].
+  assert (Hself := io_stop_self s i ev Hl). cbv zeta in Hself.
+  assert (Hreg := fun fd => io_stop_reg s i ev fd Hl). cbv zeta in Hreg.
+  assert (Hwq := io_stop_wq s i ev Hl).
+  assert (Hoth : forall j, j <> i -> hget (io_stop s i ev) j = hget s j) by (intros; apply io_stop_other; auto).
+  assert (Hlen := io_stop_length s i ev).
+  set (s' := io_stop s i ev) in *. set (p := mdiff (h_pev (hget s i)) ev) in *.
+  assert (Hfd : forall j, h_fd (hget s' j) = h_fd (hget s j)).
+  { intro j. destruct (Nat.eq_dec j i) as [->|]; [|rewrite Hoth; auto]. rewrite Hself. destruct (mzero p); reflexivity. }
+  assert (Hcl : forall j, h_closed (hget s' j) = h_closed (hget s j)).
+  { intro j. destruct (Nat.eq_dec j i) as [->|]; [|rewrite Hoth; auto]. rewrite Hself. destruct (mzero p); reflexivity. }
+  assert (Hlv : forall j, livei s' j <-> livei s j) by (intro j; apply livei_same; auto).
+  assert (Hsub : forall fd j, reg s' fd = Some j -> reg s fd = Some j).
+  { intros fd j Hc. rewrite Hreg in Hc. destruct (_ && _ && _); [discriminate|auto]. }
+  destruct K.
+  destruct (mzero p) eqn:Hz.
+  - (* stopped completely *)
+    assert (Hp0 : p = m0) by (apply mzero_eq; auto).
+    assert (Hnot : forall fd, reg s' fd <> Some i).
+    { intros fd Hc. pose proof (Hsub _ _ Hc) as Hc0. destruct (k_reg0 _ _ Hc0) as [_ [Hf _]]. subst fd.
+      rewrite Hreg, Hc0, Z.eqb_refl, Nat.eqb_refl in Hc. discriminate. }
+    assert (Hkeep : forall fd j, j <> i -> reg s fd = Some j -> reg s' fd = Some j).
+    { intros fd j Hn Hc. rewrite Hreg. destruct (_ && _ && _) eqn:Hb; auto. exfalso.
+      apply andb_prop in Hb. destruct Hb as [Hb Hb2]. apply andb_prop in Hb. destruct Hb as [_ Hb].
+      apply Z.eqb_eq in Hb. subst fd. rewrite Hc in Hb2. apply Nat.eqb_eq in Hb2. congruence. }
+    constructor; try congruence.
+    + intro j. destruct (Nat.eq_dec j i) as [->|]; [|rewrite Hoth; auto]. rewrite Hself. cbn. rewrite Hp0. reflexivity.
+    + intros fd j Hc. assert (j <> i) by (intros ->; eapply Hnot; eauto). rewrite Hlv, Hoth by auto. apply k_reg0. auto.
+    + intros fd j Hc. assert (j <> i) by (intros ->; eapply Hnot; eauto). apply Hsub in Hc.
+      destruct (k_sync0 _ _ Hc) as [Hin|Hs].
+      * left. rewrite Hwq. apply In_remove_id. auto.
+      * right. unfold synced in *. rewrite Hoth, Sf, Se by auto. auto.
+    + rewrite Hwq. unfold remove_id. apply NoDup_filter. auto.
+    + intros j Hin. rewrite Hwq in Hin. apply In_remove_id in Hin. destruct Hin as [Hin Hn].
+      rewrite Hfd. apply Hkeep; auto.
+    + intros fd j Hc Hev. assert (j <> i) by (intros ->; eapply Hnot; eauto). rewrite Hoth in Hev by auto.
+      rewrite Sf, Se. eapply k_ev0; eauto.
+    + intros j Hc. destruct (Nat.eq_dec j i) as [->|Hn].
+      * rewrite Hself. cbn. rewrite Hp0. auto.
+      * rewrite Hoth by auto. apply k_unreg0. rewrite Hfd in Hc. intro Hc0. apply Hc. apply Hkeep; auto.
+    + intros a b Ha Hb. rewrite !Hlv in *. rewrite !Hfd. auto.
+    + intros j Hj. rewrite Hlv in Hj. rewrite Sf, Hfd. auto.
+    + intros fd o m Hm. rewrite Se in Hm. rewrite Sf. destruct (k_ep0 _ _ _ Hm) as [X [j [Y Z]]]. split; auto.
+      exists j. rewrite Hlv, Hfd. auto.
+    + intros fd o Hf. rewrite Sf in Hf. rewrite Sp. auto.
+  - (* some events remain *)
+    assert (Hregs : forall fd, reg s' fd = reg s fd) by (intro fd; rewrite Hreg; reflexivity).
+    assert (Hri : reg s (h_fd (hget s i)) = Some i).
+    { destruct (reg_dec s (h_fd (hget s i)) i) as [|Hn]; auto. destruct (k_unreg0 _ Hn) as [Hp _].
+      unfold p in Hz. rewrite Hp in Hz. mk_destruct ev. discriminate. }
+    assert (Hin' : forall j, In j (wq s) \/ j = i -> In j (wq s')).
+    { intros j Hj. rewrite Hwq. destruct (mem i (wq s)) eqn:Hm.
+      - destruct Hj as [Hj|Hj]; auto. subst j. apply mem_In; auto.
+      - apply in_or_app. destruct Hj as [Hj|Hj]; auto. subst j. right. left. auto. }
+    constructor; try congruence.
+    + intro j. destruct (Nat.eq_dec j i) as [->|]; [|rewrite Hoth; auto]. rewrite Hself. cbn. apply mdiff_errhup. auto.
+    + intros fd j Hc. rewrite Hregs in Hc. rewrite Hlv, Hfd. destruct (k_reg0 _ _ Hc) as [X [Y Z]]. split_all; auto.
+      destruct (Nat.eq_dec j i) as [->|]; [|rewrite Hoth; auto]. rewrite Hself. cbn. auto.
+    + intros fd j Hc. rewrite Hregs in Hc. destruct (Nat.eq_dec j i) as [->|Hn]; [left; apply Hin'; auto|].
+      destruct (k_sync0 _ _ Hc) as [Hin|Hs]; [left; apply Hin'; auto|].
+      right. unfold synced in *. rewrite Hoth, Sf, Se by auto. auto.
+    + rewrite Hwq. destruct (mem i (wq s)) eqn:Hm; auto. apply NoDup_app_one; auto.
+      intro Hc. apply mem_In in Hc. congruence.
+    + intros j Hin. rewrite Hregs, Hfd. rewrite Hwq in Hin. destruct (mem i (wq s)); auto.
+      apply in_app_or in Hin. destruct Hin as [|[<-|[]]]; auto.
+    + intros fd j Hc Hev. rewrite Hregs in Hc. rewrite Sf, Se. apply (k_ev0 fd j); auto.
+      destruct (Nat.eq_dec j i) as [->|Hn]; [|rewrite Hoth in Hev; auto]. rewrite Hself in Hev. exact Hev.
+    + intros j Hc. rewrite Hregs, Hfd in Hc. destruct (Nat.eq_dec j i) as [->|Hn]; [contradiction|].
+      rewrite Hoth by auto. auto.
+    + intros a b Ha Hb. rewrite !Hlv in *. rewrite !Hfd. auto.
+    + intros j Hj. rewrite Hlv in Hj. rewrite Sf, Hfd. auto.
+    + intros fd o m Hm. rewrite Se in Hm. rewrite Sf. destruct (k_ep0 _ _ _ Hm) as [X [j [Y Z]]]. split; auto.
+      exists j. rewrite Hlv, Hfd. auto.
+    + intros fd o Hf. rewrite Sf in Hf. rewrite Sp. auto.
+Qed.
+
+Lemma ep_set_other e fd o v fd' o' : fd' <> fd -> ep_set e fd o v fd' o' = e fd' o'.
+Proof. intros H. unfold ep_set. destruct (Z.eqb_spec fd' fd); [contradiction|reflexivity]. Qed.
+Lemma ep_set_same e fd o v : ep_set e fd o v fd o = v.
+Proof. unfold ep_set. rewrite Z.eqb_refl, Nat.eqb_refl. reflexivity. Qed.
+
+(* EPOLL_CTL_DEL of a descriptor number nobody is registered on *)
+Lemma KI_del s fd : KI s -> reg s fd = None ->
+  KI (fst (epoll_ctl s CDel fd m0)) /\ forall o, ep (fst (epoll_ctl s CDel fd m0)) fd o = None.
+Proof.
+  intros K Hr.
+  pose proof (epoll_ctl_same s CDel fd m0) as X. cbv zeta in X.
+  destruct X as [Sh [Sr [Sw [[_ [_ [_ [_ [Sq [_ [Ss Sa]]]]]]] [Sf Sp]]]]].
+  pose proof (epoll_ctl_ep s CDel fd m0) as Se.
+  set (s' := fst (epoll_ctl s CDel fd m0)) in *.
+  assert (Hg : forall j, hget s' j = hget s j) by (intro j; unfold hget; rewrite Sh; auto).
+  assert (Hlv : forall j, livei s' j <-> livei s j) by (intro j; unfold livei; rewrite Sh, Hg; tauto).
+  assert (Hoth : forall fd' o', fd' <> fd -> ep s' fd' o' = ep s fd' o').
+  { intros fd' o' Hn. rewrite Se. destruct (fdt s fd) as [o|]; auto. destruct (ep s fd o); auto.
+    apply ep_set_other; auto. }
+  assert (Hsub : forall fd' o' m, ep s' fd' o' = Some m -> ep s fd' o' = Some m).
+  { intros fd' o' m. rewrite Se. destruct (fdt s fd) as [o|]; auto. destruct (ep s fd o); auto.
+    unfold ep_set. destruct (_ && _); [discriminate|auto]. }
+  assert (Hgone : forall o, ep s' fd o = None).
+  { intro o. destruct (ep s' fd o) as [m|] eqn:Hm; auto. exfalso. pose proof (Hsub _ _ _ Hm) as Hm0.
+    destruct (k_ep s K _ _ _ Hm0) as [Hf _]. rewrite Se, Hf, Hm0, ep_set_same in Hm. discriminate. }
+  split; auto. destruct K. constructor; try congruence.
+  - intros fd' j Hc. rewrite Sr in Hc. rewrite Hlv, Hg. auto.
+  - intros fd' j Hc. rewrite Sr in Hc. assert (fd' <> fd) by congruence.
+    destruct (k_sync0 _ _ Hc) as [|[E [o [F G]]]]; [left; congruence|]. right. unfold synced.
+    rewrite Hg, Sf. split; auto. exists o. rewrite Hoth; auto.
+  - intros j Hin. rewrite Sw in Hin. rewrite Sr, Hg. auto.
+  - intros fd' j Hc Hev. rewrite Sr in Hc. rewrite Hg in Hev. assert (fd' <> fd) by congruence.
+    destruct (k_ev0 _ _ Hc Hev) as [o [F G]]. exists o. rewrite Sf, Hoth; auto.
+  - intros j Hc. rewrite Sr, Hg in Hc. rewrite Hg. auto.
+  - intros a b Ha Hb. rewrite !Hlv in *. rewrite !Hg. auto.
+  - intros j Hj. rewrite Hlv in Hj. rewrite Sf, Hg. auto.
+  - intros fd' o m Hm. apply Hsub in Hm. rewrite Sf. destruct (k_ep0 _ _ _ Hm) as [X [j [Y Z]]]. split; auto.
+    exists j. rewrite Hlv, Hg. auto.
+  - intros fd' o Hf. rewrite Sf in Hf. rewrite Sp. auto.
+Qed.
+
+Lemma KI_set_batch s b : KI s -> KI (set_batch s b).
+Proof. apply KI_same; reflexivity. Qed.
+
+Lemma KI_invalidate s fd : KI s -> reg s fd = None ->
+  KI (invalidate s fd) /\ forall o, ep (invalidate s fd) fd o = None.
+Proof. intros K Hr. unfold invalidate. apply KI_del; auto. apply KI_set_batch; auto. Qed.
+
+Lemma KI_hupd_kview s i f : (forall h, kview (f h) = kview h) -> KI s -> KI (hupd s i f).
+Proof.
+  intros Hf. apply KI_ext; try reflexivity.
+  - apply hupd_length.
+  - intro j. rewrite hget_hupd. destruct (_ && _); auto.
+Qed.
+
+(* uv_close has returned: the handle is out of the registry and nothing is
+   registered in the kernel under its descriptor number *)
+Lemma KI_close_flag s i : KI s -> (forall fd, reg s fd <> Some i) ->
+  (forall o, ep s (h_fd (hget s i)) o = None) ->
+  KI (hupd s i (fun h => h_set_closed h true)).
+Proof.
+  intros K Hu He. set (s' := hupd s i (fun h => h_set_closed h true)).
+  assert (Hl : length (hs s') = length (hs s)) by apply hupd_length.
+  assert (Hfd : forall j, h_fd (hget s' j) = h_fd (hget s j)).
+  { intro j. unfold s'. rewrite hget_hupd. destruct (_ && _); reflexivity. }
+  assert (Hpe : forall j, h_pev (hget s' j) = h_pev (hget s j)).
+  { intro j. unfold s'. rewrite hget_hupd. destruct (_ && _); reflexivity. }
+  assert (Hev : forall j, h_ev (hget s' j) = h_ev (hget s j)).
+  { intro j. unfold s'. rewrite hget_hupd. destruct (_ && _); reflexivity. }
+  assert (Hlv : forall j, livei s' j -> livei s j).
+  { intros j [A B]. split; [lia|]. unfold s' in B. rewrite hget_hupd in B. destruct (_ && _); auto. discriminate. }
+  assert (Hlv2 : forall j, j <> i -> livei s j -> livei s' j).
+  { intros j Hn [A B]. split; [lia|]. unfold s'. rewrite hget_hupd_other; auto. }
+  destruct K. constructor; auto.
+  - intro j. rewrite Hpe. auto.
+  - intros fd j Hc. change (reg s' fd) with (reg s fd) in Hc. assert (j <> i) by (intros ->; eapply Hu; eauto).
+    rewrite Hfd, Hpe. destruct (k_reg0 _ _ Hc) as [X [Y Z]]. split_all; auto.
+  - intros fd j Hc. change (reg s' fd) with (reg s fd) in Hc. change (wq s') with (wq s).
+    unfold synced. rewrite Hev, Hpe. apply k_sync0; auto.
+  - intros j Hin. change (wq s') with (wq s) in Hin. change (reg s' (h_fd (hget s' j))) with (reg s (h_fd (hget s' j))).
+    rewrite Hfd. auto.
+  - intros fd j Hc Hm. rewrite Hev in Hm. apply (k_ev0 fd j); auto.
+  - intros j Hc. change (reg s' (h_fd (hget s' j))) with (reg s (h_fd (hget s' j))) in Hc. rewrite Hfd in Hc.
+    rewrite Hpe, Hev. auto.
+  - intros a b Ha Hb. rewrite !Hfd. apply Hlv in Ha. apply Hlv in Hb. auto.
+  - intros j Hj. apply Hlv in Hj. rewrite Hfd. apply k_fdopen0; auto.
+  - intros fd o m Hm. change (ep s' fd o) with (ep s fd o) in Hm. destruct (k_ep0 _ _ _ Hm) as [X [j [Y Z]]].
+    split; auto. exists j. rewrite Hfd. split; auto. apply Hlv2; auto. intros ->. rewrite Z in He. rewrite He in Hm. discriminate.
+Qed.
+
+(* uv__io_start on a live handle *)
+Lemma KI_io_start s i ev : KI s -> livei s i -> mzero ev = false -> mand ev ERRHUP = m0 ->
+  KI (io_start s i ev).
+Proof.
+  intros K Hli Hz He. destruct Hli as [Hl Hc0].
+  destruct (io_start_same s i ev) as [[_ [_ [_ [_ [Sq [_ [Ss Sa]]]]]]] [Sf [Se Sp]]].
+  assert (Hself := io_start_self s i ev Hl).
+  assert (Hreg := fun fd => io_start_reg s i ev fd Hl). cbv zeta in Hreg.
+  assert (Hwq := io_start_wq s i ev Hl). cbv zeta in Hwq.
+  assert (Hoth : forall j, j <> i -> hget (io_start s i ev) j = hget s j) by (intros; apply io_start_other; auto).
+  assert (Hlen := io_start_length s i ev).
+  set (s' := io_start s i ev) in *. set (P := mor (h_pev (hget s i)) ev) in *.
+  assert (HP : mzero P = false) by (apply mor_nonzero; auto).
+  assert (Hfd : forall j, h_fd (hget s' j) = h_fd (hget s j)).
+  { intro j. destruct (Nat.eq_dec j i) as [->|]; [|rewrite Hoth; auto]. rewrite Hself. reflexivity. }
+  assert (Hcl : forall j, h_closed (hget s' j) = h_closed (hget s j)).
+  { intro j. destruct (Nat.eq_dec j i) as [->|]; [|rewrite Hoth; auto]. rewrite Hself. reflexivity. }
+  assert (Hevs : forall j, h_ev (hget s' j) = h_ev (hget s j)).
+  { intro j. destruct (Nat.eq_dec j i) as [->|]; [|rewrite Hoth; auto]. rewrite Hself. reflexivity. }
+  assert (Hlv : forall j, livei s' j <-> livei s j) by (intro j; apply livei_same; auto).
+  assert (Hpi : h_pev (hget s' i) = P) by (rewrite Hself; reflexivity).
+  destruct K.
+  assert (Honly : forall j, reg s (h_fd (hget s i)) = Some j -> j = i).
+  { intros j Hc. destruct (k_reg0 _ _ Hc) as [X [Y _]]. apply k_uniq0; auto. split; auto. }
+  destruct (meqb (h_ev (hget s i)) P) eqn:Hm.
+  - apply meqb_eq in Hm.
+    assert (Hri : reg s (h_fd (hget s i)) = Some i).
+    { destruct (reg_dec s (h_fd (hget s i)) i) as [|Hn]; auto. destruct (k_unreg0 _ Hn) as [_ Hp].
+      rewrite Hp in Hm. rewrite <- Hm in HP. discriminate. }
+    assert (Hregs : forall fd, reg s' fd = reg s fd) by (intro fd; rewrite Hreg; reflexivity).
+    constructor; try congruence.
+    + intro j. destruct (Nat.eq_dec j i) as [->|]; [|rewrite Hoth; auto]. rewrite Hpi. apply mor_errhup; auto.
+    + intros fd j Hc. rewrite Hregs in Hc. rewrite Hlv, Hfd. destruct (k_reg0 _ _ Hc) as [X [Y Z]]. split_all; auto.
+      destruct (Nat.eq_dec j i) as [->|]; [|rewrite Hoth; auto]. rewrite Hpi; auto.
+    + intros fd j Hc. rewrite Hregs in Hc. rewrite Hwq. destruct (k_sync0 _ _ Hc) as [|[E [o [F G]]]]; auto.
+      right. unfold synced. rewrite Hevs, Sf, Se. destruct (Nat.eq_dec j i) as [->|]; [|rewrite Hoth; eauto].
+      rewrite Hpi. split; auto. exists o. split; auto. rewrite G. congruence.
+    + intros j Hin. rewrite Hwq in Hin. rewrite Hregs, Hfd. auto.
+    + intros fd j Hc Hev. rewrite Hregs in Hc. rewrite Hevs in Hev. rewrite Sf, Se. eauto.
+    + intros j Hc. rewrite Hregs, Hfd in Hc. destruct (Nat.eq_dec j i) as [->|]; [contradiction|]. rewrite Hoth; auto.
+    + intros a b Ha Hb. rewrite !Hlv in *. rewrite !Hfd. auto.
+    + intros j Hj. rewrite Hlv in Hj. rewrite Sf, Hfd. auto.
+    + intros fd o m Hx. rewrite Se in Hx. rewrite Sf. destruct (k_ep0 _ _ _ Hx) as [X [j [Y Z]]]. split; auto.
+      exists j. rewrite Hlv, Hfd. auto.
+    + intros fd o Hf. rewrite Sf in Hf. rewrite Sp. auto.
+  - assert (Hri : reg s' (h_fd (hget s i)) = Some i).
+    { rewrite Hreg. destruct (reg s (h_fd (hget s i))) as [j|] eqn:Hr.
+      - f_equal. apply Honly; auto.
+      - rewrite Z.eqb_refl. auto. }
+    assert (Hsup : forall fd j, reg s fd = Some j -> reg s' fd = Some j).
+    { intros fd j Hc. rewrite Hreg. destruct (reg s (h_fd (hget s i))) as [j0|] eqn:Hr; auto.
+      destruct (Z.eqb_spec fd (h_fd (hget s i))); auto. congruence. }
+    assert (Hsub : forall fd j, reg s' fd = Some j -> reg s fd = Some j \/ (j = i /\ fd = h_fd (hget s i))).
+    { intros fd j Hc. rewrite Hreg in Hc. destruct (reg s (h_fd (hget s i))) as [j0|] eqn:Hr; auto.
+      revert Hc. destruct (Z.eqb_spec fd (h_fd (hget s i))); intro Hc; auto. inversion Hc; subst. right; auto. }
+    assert (Hin' : forall j, In j (wq s) \/ j = i -> In j (wq s')).
+    { intros j Hj. rewrite Hwq. destruct (mem i (wq s)) eqn:Hmm.
+      - destruct Hj as [Hj|Hj]; auto. subst j. apply mem_In; auto.
+      - apply in_or_app. destruct Hj as [Hj|Hj]; auto. subst j. right. left. auto. }
+    constructor; try congruence.
+    + intro j. destruct (Nat.eq_dec j i) as [->|]; [|rewrite Hoth; auto]. rewrite Hpi. apply mor_errhup; auto.
+    + intros fd j Hc. rewrite Hlv, Hfd. destruct (Nat.eq_dec j i) as [->|Hn].
+      * rewrite Hpi. destruct (Hsub _ _ Hc) as [Hc'|[_ ->]]; [destruct (k_reg0 _ _ Hc') as [X [Y _]]|]; split_all; auto; split; auto.
+      * rewrite Hoth by auto. destruct (Hsub _ _ Hc) as [Hc'|[? _]]; [|contradiction]. auto.
+    + intros fd j Hc. destruct (Nat.eq_dec j i) as [->|Hn]; [left; apply Hin'; auto|].
+      destruct (Hsub _ _ Hc) as [Hc'|[? _]]; [|contradiction].
+      destruct (k_sync0 _ _ Hc') as [|Hs]; [left; apply Hin'; auto|]. right. unfold synced in *.
+      rewrite Hoth, Sf, Se by auto. auto.
+    + rewrite Hwq. destruct (mem i (wq s)) eqn:Hmm; auto. apply NoDup_app_one; auto.
+      intro Hc. apply mem_In in Hc. congruence.
+    + intros j Hin. rewrite Hfd. rewrite Hwq in Hin. destruct (mem i (wq s)) eqn:Hmm.
+      * apply Hsup; auto.
+      * apply in_app_or in Hin. destruct Hin as [Hin|[<-|[]]]; auto.
+    + intros fd j Hc Hev. rewrite Hevs in Hev. rewrite Sf, Se. destruct (Hsub _ _ Hc) as [Hc'|[-> ->]]; eauto.
+      apply (k_ev0 _ i); auto. destruct (reg_dec s (h_fd (hget s i)) i) as [|Hn]; auto.
+      destruct (k_unreg0 _ Hn) as [_ Hp]. rewrite Hp in Hev. discriminate.
+    + intros j Hc. rewrite Hfd in Hc. destruct (Nat.eq_dec j i) as [->|Hn]; [contradiction|].
+      rewrite Hoth by auto. apply k_unreg0. intro Hx. apply Hc. apply Hsup; auto.
+    + intros a b Ha Hb. rewrite !Hlv in *. rewrite !Hfd. auto.
+    + intros j Hj. rewrite Hlv in Hj. rewrite Sf, Hfd. auto.
+    + intros fd o m Hx. rewrite Se in Hx. rewrite Sf. destruct (k_ep0 _ _ _ Hx) as [X [j [Y Z]]]. split; auto.
+      exists j. rewrite Hlv, Hfd. auto.
+    + intros fd o Hf. rewrite Sf in Hf. rewrite Sp. auto.
+Qed.
+
+(* a new handle (or, for a failed uv_poll_init, an unusable one) *)
+Lemma KI_append s x : KI s -> h_pev x = m0 -> h_ev x = m0 ->
+  (h_closed x = true \/
+   (fdt s (h_fd x) <> None /\ forall j, livei s j -> h_fd (hget s j) <> h_fd x)) ->
+  KI (set_hs s (hs s ++ [x])).
+Proof.
+  intros K Hp He Hx. set (s' := set_hs s (hs s ++ [x])).
+  assert (Hold : forall j, (j < length (hs s))%nat -> hget s' j = hget s j).
+  { intros j Hj. unfold hget. cbn. apply app_nth1; auto. }
+  assert (Hnew : hget s' (length (hs s)) = x).
+  { unfold hget. cbn. rewrite app_nth2 by lia. rewrite Nat.sub_diag. reflexivity. }
+  assert (Hbig : forall j, (length (hs s) < j)%nat -> hget s' j = dflt_h).
+  { intros j Hj. unfold hget. cbn. apply nth_overflow. rewrite app_length. cbn. lia. }
+  assert (Hlen : length (hs s') = S (length (hs s))) by (cbn; rewrite app_length; cbn; lia).
+  assert (Hlv : forall j, livei s' j -> livei s j \/ (j = length (hs s) /\ h_closed x = false)).
+  { intros j [A B]. rewrite Hlen in A. destruct (Nat.eq_dec j (length (hs s))) as [->|Hn].
+    - right. rewrite Hnew in B. auto.
+    - left. rewrite Hold in B by lia. split; auto. lia. }
+  assert (Hlv2 : forall j, livei s j -> livei s' j).
+  { intros j [A B]. split; [lia|]. rewrite Hold; auto. }
+  assert (Hcases : forall j, (j < length (hs s))%nat \/ j = length (hs s) \/ (length (hs s) < j)%nat) by (intro; lia).
+  destruct K. constructor; auto.
+  - intro j. destruct (Hcases j) as [Hj|[->|Hj]]; [rewrite Hold; auto|rewrite Hnew, Hp; reflexivity|rewrite Hbig; auto].
+  - intros fd j Hc. change (reg s' fd) with (reg s fd) in Hc. destruct (k_reg0 _ _ Hc) as [X [Y Z]].
+    rewrite Hold by apply X. split_all; auto.
+  - intros fd j Hc. change (reg s' fd) with (reg s fd) in Hc. destruct (k_reg0 _ _ Hc) as [X _].
+    unfold synced. rewrite Hold by apply X. apply k_sync0; auto.
+  - intros j Hin. change (wq s') with (wq s) in Hin. pose proof (k_wq0 _ Hin) as Hc.
+    assert (Hj : (j < length (hs s))%nat).
+    { destruct (Nat.lt_ge_cases j (length (hs s))); auto. exfalso. destruct (k_reg0 _ _ Hc) as [[X _] _]. lia. }
+    rewrite Hold by auto. auto.
+  - intros fd j Hc Hev. change (reg s' fd) with (reg s fd) in Hc. destruct (k_reg0 _ _ Hc) as [X _].
+    rewrite Hold in Hev by apply X. apply (k_ev0 fd j); auto.
+  - intros j Hc. change (reg s' (h_fd (hget s' j))) with (reg s (h_fd (hget s' j))) in Hc.
+    destruct (Hcases j) as [Hj|[->|Hj]].
+    + rewrite Hold in * by auto. auto.
+    + rewrite Hnew. auto.
+    + rewrite Hbig by auto. auto.
+  - intros a b Ha Hb Hf. destruct (Hlv _ Ha) as [Ha'|[Ea Hca]]; destruct (Hlv _ Hb) as [Hb'|[Eb Hcb]].
+    + rewrite (Hold a) in Hf by apply Ha'. rewrite (Hold b) in Hf by apply Hb'. auto.
+    + subst b. rewrite (Hold a) in Hf by apply Ha'. rewrite Hnew in Hf. destruct Hx as [Hx|[_ Hx]]; [congruence|].
+      exfalso. eapply Hx; eauto.
+    + subst a. rewrite (Hold b) in Hf by apply Hb'. rewrite Hnew in Hf. destruct Hx as [Hx|[_ Hx]]; [congruence|].
+      exfalso. eapply Hx; eauto.
+    + congruence.
+  - intros j Hj. change (fdt s') with (fdt s). destruct (Hlv _ Hj) as [Hj'|[-> Hc]].
+    + rewrite Hold by apply Hj'. auto.
+    + rewrite Hnew. destruct Hx as [Hx|[Hx _]]; [congruence|auto].
+  - intros fd o m Hm. change (ep s' fd o) with (ep s fd o) in Hm. destruct (k_ep0 _ _ _ Hm) as [X [j [Y Z]]].
+    split; auto. exists j. split; auto. rewrite Hold by apply Y. auto.
+Qed.
+
+(* open / dup / close in the kernel *)
+Lemma KI_k_open s fd : KI s -> fdt s fd = None -> KI (k_open s fd).
+Proof.
+  intros K Hf. unfold k_open. set (o := next_ofd s).
+  assert (Hne : forall fd' o', fdt s fd' = Some o' -> fd' <> fd) by (intros fd' o' H ->; congruence).
+  assert (Hft : forall fd' o', fdt s fd' = Some o' -> fn_set (fdt s) fd (Some o) fd' = Some o').
+  { intros fd' o' H. unfold fn_set. destruct (Z.eqb_spec fd' fd); auto. subst. congruence. }
+  destruct K. constructor; auto.
+  - intros fd' j Hc. destruct (k_sync0 _ _ Hc) as [|[E [o' [F G]]]]; auto. right. split; auto. exists o'. cbn. auto.
+  - intros fd' j Hc Hev. destruct (k_ev0 _ _ Hc Hev) as [o' [F G]]. exists o'. cbn. auto.
+  - intros j Hj. cbn. unfold fn_set. destruct (_ =? _); [discriminate|]. apply k_fdopen0; auto.
+  - intros fd' o' m Hm. cbn in Hm. destruct (k_ep0 _ _ _ Hm) as [X Y]. split; auto. cbn. auto.
+  - intros fd' o' H. cbn in *. unfold fn_set in H. destruct (Z.eqb_spec fd' fd).
+    + inversion H; subst. left; auto.
+    + right. auto.
+Qed.
+
+Lemma KI_k_dup s src fd : KI s -> fdt s fd = None -> KI (k_dup s src fd).
+Proof.
+  intros K Hf. unfold k_dup. destruct (fdt s src) as [o|] eqn:Hs; auto.
+  assert (Hft : forall fd' o', fdt s fd' = Some o' -> fn_set (fdt s) fd (Some o) fd' = Some o').
+  { intros fd' o' H. unfold fn_set. destruct (Z.eqb_spec fd' fd); auto. subst. congruence. }
+  destruct K. constructor; auto.
+  - intros fd' j Hc. destruct (k_sync0 _ _ Hc) as [|[E [o' [F G]]]]; auto. right. split; auto. exists o'. cbn. auto.
+  - intros fd' j Hc Hev. destruct (k_ev0 _ _ Hc Hev) as [o' [F G]]. exists o'. cbn. auto.
+  - intros j Hj. cbn. unfold fn_set. destruct (_ =? _); [discriminate|]. apply k_fdopen0; auto.
+  - intros fd' o' m Hm. cbn in Hm. destruct (k_ep0 _ _ _ Hm) as [X Y]. split; auto. cbn. auto.
+  - intros fd' o' H. cbn in *. unfold fn_set in H. destruct (Z.eqb_spec fd' fd).
+    + inversion H; subst. left; auto.
+    + right. auto.
+Qed.
+
+Lemma KI_k_close s fd : KI s -> (forall j, livei s j -> h_fd (hget s j) <> fd) -> KI (k_close s fd).
+Proof.
+  intros K Hno. unfold k_close. destruct (fdt s fd) as [o|] eqn:Hf; auto.
+  set (t := fn_set (fdt s) fd None).
+  assert (Ht : forall fd', fd' <> fd -> t fd' = fdt s fd').
+  { intros fd' Hn. unfold t, fn_set. destruct (Z.eqb_spec fd' fd); [contradiction|auto]. }
+  set (still := existsb _ (pairs s)).
+  assert (Hstill : still = false -> forall fd' o', fd' <> fd -> fdt s fd' = Some o' -> o' <> o).
+  { intros Hs fd' o' Hn Hf' ->. unfold still in Hs.
+    assert (existsb (fun p => Nat.eqb (snd p) o && match t (fst p) with Some o' => Nat.eqb o' o | None => false end)
+                    (pairs s) = true) as Hx.
+    { apply existsb_exists. exists (fd', o). split; [apply (k_pairs s K); auto|]. cbn.
+      rewrite Ht, Hf', Nat.eqb_refl by auto. reflexivity. }
+    congruence. }
+  assert (Hreg : forall fd' j, reg s fd' = Some j -> fd' <> fd).
+  { intros fd' j Hc ->. destruct (k_reg s K _ _ Hc) as [X [Y _]]. eapply Hno; eauto. }
+  assert (Hepfd : forall fd' o' m, ep s fd' o' = Some m -> fd' <> fd).
+  { intros fd' o' m Hm ->. destruct (k_ep s K _ _ _ Hm) as [_ [j [Y Z]]]. eapply Hno; eauto. }
+  set (ep' := if still then ep s else fun x y => if Nat.eqb y o then None else ep s x y).
+  assert (Hep1 : forall fd' o' m, ep' fd' o' = Some m -> ep s fd' o' = Some m).
+  { intros fd' o' m. unfold ep'. destruct still; auto. destruct (Nat.eqb o' o); [discriminate|auto]. }
+  assert (Hep2 : forall fd' o', fd' <> fd -> fdt s fd' = Some o' -> ep' fd' o' = ep s fd' o').
+  { intros fd' o' Hn Hf'. unfold ep'. destruct still eqn:Hs; auto.
+    destruct (Nat.eqb_spec o' o); auto. exfalso. eapply Hstill; eauto. }
+  assert (KI (set_ep (set_fdt s t) ep')) as Hgoal.
+  { destruct K. constructor; auto.
+    - intros fd' j Hc. change (reg (set_ep (set_fdt s t) ep') fd') with (reg s fd') in Hc.
+      destruct (k_sync0 _ _ Hc) as [|[E [o' [F G]]]]; auto. right. split; auto. exists o'. cbn.
+      rewrite Ht by eauto. split; auto. rewrite Hep2; eauto.
+    - intros fd' j Hc Hev. change (reg (set_ep (set_fdt s t) ep') fd') with (reg s fd') in Hc.
+      destruct (k_ev0 _ _ Hc Hev) as [o' [F G]]. exists o'. cbn. rewrite Ht by eauto. split; auto. rewrite Hep2; eauto.
+    - intros j Hj. change (fdt s (h_fd (hget s j)) <> None -> t (h_fd (hget s j)) <> None) with (fdt s (h_fd (hget s j)) <> None -> t (h_fd (hget s j)) <> None).
+      cbn [fdt set_ep set_fdt]. change (hget (set_ep (set_fdt s t) ep') j) with (hget s j). rewrite Ht by (apply Hno; exact Hj). apply k_fdopen0; exact Hj.
+    - intros fd' o' m Hm. cbn in Hm. apply Hep1 in Hm. destruct (k_ep0 _ _ _ Hm) as [X Y]. split; auto.
+      cbn. rewrite Ht; eauto.
+    - intros fd' o' H. cbn in *. unfold t, fn_set in H. destruct (fd' =? fd); [discriminate|auto]. }
+  unfold ep' in Hgoal. destruct still; auto.
+Qed.
+
+Lemma any_on_false s fd p : any_on s fd p = false ->
+  forall j, (j < length (hs s))%nat -> h_fd (hget s j) = fd -> p (hget s j) = false.
+Proof.
+  intros H j Hj Hf. unfold any_on in H.
+  pose proof (existsb_nth (fun h => (h_fd h =? fd) && p h) (hs s) dflt_h Hj H) as X. cbn in X.
+  fold (hget s j) in X. rewrite Hf, Z.eqb_refl in X. exact X.
+Qed.
+
+Lemma no_live_on s fd : any_on s fd live = false -> forall j, livei s j -> h_fd (hget s j) <> fd.
+Proof.
+  intros H j [Hj Hc] Hf. pose proof (any_on_false s fd live H j Hj Hf) as X. unfold live in X.
+  rewrite Hc in X. discriminate.
+Qed.
+
+(* uv__io_check_fd on a descriptor number no live handle uses *)
+Lemma KI_check_fd s fd : KI s -> (forall j, livei s j -> h_fd (hget s j) <> fd) ->
+  KI (fst (io_check_fd s fd)) /\ (snd (io_check_fd s fd) = 0 -> fdt s fd <> None).
+Proof.
+  intros K Hno.
+  assert (Hnone : forall o, ep s fd o = None).
+  { intro o. destruct (ep s fd o) eqn:Hm; auto. exfalso. destruct (k_ep s K _ _ _ Hm) as [_ [j [Y Z]]]. eapply Hno; eauto. }
+  unfold io_check_fd, epoll_ctl. destruct (fdt s fd) as [o|] eqn:Hf.
+  - rewrite Hnone. cbn. rewrite Hf. cbn. rewrite ep_set_same. cbn. split; [|discriminate].
+    eapply KI_ext; [..|exact K]; try reflexivity.
+    intros x y. cbn. unfold ep_set. destruct ((x =? fd) && (y =? o)%nat) eqn:Hb; auto.
+    apply andb_prop in Hb. destruct Hb as [H1 H2]. apply Z.eqb_eq in H1. apply Nat.eqb_eq in H2. subst. rewrite Hnone. auto.
+  - cbn. split; auto. discriminate.
+Qed.
+
+Lemma KI_poll_stop s i : KI s -> livei s i ->
+  let s' := poll_stop s i in
+  KI s' /\ (forall fd, reg s' fd <> Some i) /\ (forall o, ep s' (h_fd (hget s i)) o = None) /\
+  livei s' i /\ h_fd (hget s' i) = h_fd (hget s i) /\ length (hs s') = length (hs s) /\
+  h_kind (hget s' i) = h_kind (hget s i).
+Proof.
+  intros K [Hl Hc]. cbv zeta. unfold poll_stop.
+  pose proof (KI_io_stop s i ALLEV K Hl) as K1.
+  assert (Hself : hget (io_stop s i ALLEV) i = h_set_ev (h_set_pev (hget s i) m0) m0).
+  { rewrite io_stop_self by auto. cbv zeta. rewrite mdiff_all by apply (k_pev s K). reflexivity. }
+  assert (Hl1 : length (hs (io_stop s i ALLEV)) = length (hs s)) by apply io_stop_length.
+  set (s1 := io_stop s i ALLEV) in *.
+  assert (Hli1 : livei s1 i) by (split; [lia|rewrite Hself; auto]).
+  assert (Hun1 : forall fd, reg s1 fd <> Some i).
+  { intros fd Hr. destruct (k_reg s1 K1 _ _ Hr) as [_ [_ Hz]]. rewrite Hself in Hz. discriminate. }
+  set (s2 := hupd s1 i (fun h => h_set_ghost (h_set_active h false) (g_req h) None)).
+  assert (K2 : KI s2) by (apply KI_hupd_kview; auto; intros; reflexivity).
+  assert (Hs2 : hget s2 i = h_set_ghost (h_set_active (hget s1 i) false) (g_req (hget s1 i)) None).
+  { unfold s2. rewrite hget_hupd_same by lia. reflexivity. }
+  assert (Hfd2 : h_fd (hget s2 i) = h_fd (hget s i)) by (rewrite Hs2, Hself; reflexivity).
+  assert (Hli2 : livei s2 i).
+  { split; [unfold s2; rewrite hupd_length; lia|]. rewrite Hs2, Hself. auto. }
+  assert (Hnone : reg s2 (h_fd (hget s2 i)) = None).
+  { destruct (reg s2 (h_fd (hget s2 i))) as [j|] eqn:Hr; auto. exfalso.
+    destruct (k_reg s2 K2 _ _ Hr) as [X [Y _]]. assert (j = i) by (apply (k_uniq s2 K2); auto). subst j.
+    unfold s2 in Hr. cbn [reg hupd set_hs] in Hr. eapply Hun1; eauto. }
+  destruct (KI_invalidate s2 _ K2 Hnone) as [K3 Hgone].
+  destruct (invalidate_same s2 (h_fd (hget s2 i))) as [Sh [Sr _]]. cbv zeta in *.
+  assert (Hg : forall j, hget (invalidate s2 (h_fd (hget s2 i))) j = hget s2 j) by (intro j; unfold hget at 1; rewrite Sh; reflexivity).
+  split_all; auto.
+  - intros fd. rewrite Sr. unfold s2. cbn [reg hupd set_hs]. apply Hun1.
+  - rewrite <- Hfd2. auto.
+  - split; [rewrite Sh; apply Hli2|]. rewrite Hg. apply Hli2.
+  - rewrite Hg. auto.
+  - rewrite Sh. unfold s2. rewrite hupd_length. auto.
+  - rewrite Hg, Hs2, Hself. reflexivity.
+Qed.
+
+Lemma KI_poll_start s i m : KI s -> livei s i -> mand m ALLEV = m -> KI (fst (poll_start s i m)).
+Proof.
+  intros K Hli Hm. unfold poll_start.
+  destruct (match reg s (h_fd (hget s i)) with Some j => negb (Nat.eqb i j) | None => false end); auto.
+  destruct (KI_poll_stop s i K Hli) as [K1 [Hun [_ [Hli1 [Hfd [Hlen _]]]]]]. cbv zeta in *.
+  set (s1 := poll_stop s i) in *.
+  destruct (mzero m) eqn:Hz; auto. cbn [fst].
+  apply KI_hupd_kview; [intros; reflexivity|]. apply KI_io_start; auto.
+  - rewrite Hm. auto.
+  - apply mand_allev_errhup.
+Qed.
+
+Lemma KI_io_close s i : KI s -> livei s i ->
+  KI (io_close s i) /\ (forall fd, reg (io_close s i) fd <> Some i) /\
+  (forall o, ep (io_close s i) (h_fd (hget (io_close s i) i)) o = None).
+Proof.
+  intros K [Hl Hc]. unfold io_close.
+  pose proof (KI_io_stop s i ALLEV K Hl) as K1.
+  assert (Hself : hget (io_stop s i ALLEV) i = h_set_ev (h_set_pev (hget s i) m0) m0).
+  { rewrite io_stop_self by auto. cbv zeta. rewrite mdiff_all by apply (k_pev s K). reflexivity. }
+  assert (Hl1 : length (hs (io_stop s i ALLEV)) = length (hs s)) by apply io_stop_length.
+  set (s1 := io_stop s i ALLEV) in *.
+  assert (Hun1 : forall fd, reg s1 fd <> Some i).
+  { intros fd Hr. destruct (k_reg s1 K1 _ _ Hr) as [_ [_ Hz]]. rewrite Hself in Hz. discriminate. }
+  set (s2 := set_prun (set_pend s1 (remove_id i (pend s1))) (remove_id i (prun s1))).
+  assert (K2 : KI s2) by (eapply KI_same; [..|exact K1]; reflexivity).
+  change (hget s2 i) with (hget s1 i).
+  assert (Hli2 : livei s2 i) by (split; [cbn; lia|change (hget s2 i) with (hget s1 i); rewrite Hself; auto]).
+  assert (Hnone : reg s2 (h_fd (hget s1 i)) = None).
+  { destruct (reg s2 (h_fd (hget s1 i))) as [j|] eqn:Hr; auto. exfalso.
+    destruct (k_reg s2 K2 _ _ Hr) as [X [Y _]]. assert (j = i) by (apply (k_uniq s2 K2); auto). subst j.
+    eapply Hun1; eauto. }
+  destruct (KI_invalidate s2 _ K2 Hnone) as [K3 Hgone].
+  destruct (invalidate_same s2 (h_fd (hget s1 i))) as [Sh [Sr _]]. cbv zeta in *.
+  assert (Hg : forall j, hget (invalidate s2 (h_fd (hget s1 i))) j = hget s2 j) by (intro j; unfold hget at 1; rewrite Sh; reflexivity).
+  split_all; auto.
+  - intros fd. rewrite Sr. apply Hun1.
+  - intro o. rewrite Hg. apply Hgone.
+Qed.
+
+Definition EK (e : event) : Prop :=
+  match e with EPwait s _ => SYNC s | _ => True end.
+
+Lemma valid_livei s i : valid s i = true -> livei s i.
+Proof.
+  unfold valid. intros H. apply andb_prop in H. destruct H as [H1 H2]. split.
+  - apply Nat.ltb_lt; auto.
+  - destruct (h_closed (hget s i)); auto; try discriminate.
+Qed.
+
+Lemma KI_api fdo s o : KI s -> KI (fst (api fdo s o)) /\ Forall EK (snd (api fdo s o)).
+Proof.
+  intros K. unfold api. rewrite (k_abort s K).
+  destruct o.
+  - (* OOpen *)
+    destruct (slots s sl =? -1); [|split; [auto|repeat constructor]].
+    set (s1 := set_nopen s (S (nopen s))).
+    assert (K1 : KI s1) by (eapply KI_same; [..|exact K]; reflexivity).
+    destruct (0 <=? fdo (nopen s)); cbn [andb]; [|split; [auto|repeat constructor]].
+    destruct (fdt s1 (fdo (nopen s))) eqn:Hf; cbn [fst snd]; (split; [|repeat constructor]); auto.
+    eapply KI_same; [..|apply (KI_k_open s1 _ K1 Hf)]; reflexivity.
+  - (* ODup *)
+    destruct (_ && _); [|split; [auto|repeat constructor]].
+    set (s1 := set_nopen s (S (nopen s))).
+    assert (K1 : KI s1) by (eapply KI_same; [..|exact K]; reflexivity).
+    destruct (0 <=? fdo (nopen s)); cbn [andb]; [|split; [auto|repeat constructor]].
+    destruct (fdt s1 (fdo (nopen s))) eqn:Hf; cbn [fst snd]; (split; [|repeat constructor]); auto.
+    eapply KI_same; [..|apply (KI_k_dup s1 (slots s1 src) _ K1 Hf)]; reflexivity.
+  - (* OCloseFd *)
+    rewrite (k_strict s K). cbn [andb].
+    destruct (slots s sl =? -1); cbn [orb]; [split; [auto|repeat constructor]|].
+    destruct (any_on s (slots s sl) busy); cbn [orb]; [split; [auto|repeat constructor]|].
+    destruct (any_on s (slots s sl) live) eqn:Ha; [split; [auto|repeat constructor]|].
+    cbn [fst snd]. split; [|repeat constructor].
+    eapply KI_same; [..|apply (KI_k_close s (slots s sl) K (no_live_on _ _ Ha))]; reflexivity.
+  - split; [auto|constructor].
+  - (* OInit *)
+    rewrite (k_strict s K). cbn [andb].
+    destruct (slots s sl =? -1); cbn [orb]; [split; [auto|repeat constructor]|].
+    destruct (any_on s (slots s sl) (fun h => live h && is_raw h)); cbn [orb]; [split; [auto|repeat constructor]|].
+    destruct (any_on s (slots s sl) live) eqn:Ha; [split; [auto|repeat constructor]|].
+    pose proof (no_live_on _ _ Ha) as Hno.
+    unfold poll_init. destruct (fd_exists s (slots s sl)).
+    + cbn [fst snd]. split; [|repeat constructor]. apply KI_append; auto.
+    + destruct (KI_check_fd s (slots s sl) K Hno) as [K1 Hrc].
+      pose proof (io_check_fd_same s (slots s sl)) as X. cbv zeta in X.
+      destruct (io_check_fd s (slots s sl)) as [s1 rc]. cbn [fst snd] in *.
+      destruct X as [Xh [_ [_ [_ [_ [_ [_ [_ [_ [_ [Xf _]]]]]]]]]]].
+      destruct (Z.eqb_spec rc 0); cbn [fst snd]; (split; [|repeat constructor]); apply KI_append; auto.
+      right. cbn. rewrite Xf. split; auto. intros j Hj.
+      assert (Hg : hget s1 j = hget s j) by (unfold hget; rewrite Xh; auto).
+      rewrite Hg. apply Hno. destruct Hj as [A B]. rewrite Hg in B. rewrite Xh in A. split; auto.
+  - (* ORawInit *)
+    destruct (slots s sl =? -1); cbn [orb]; [split; [auto|repeat constructor]|].
+    destruct (fdt s (slots s sl)) eqn:Hf; cbn [orb]; [|split; [auto|repeat constructor]].
+    destruct (any_on s (slots s sl) live) eqn:Ha; [split; [auto|repeat constructor]|].
+    cbn [fst snd]. split; [|repeat constructor]. unfold raw_init. apply KI_append; auto.
+    right. cbn. split; [congruence|]. apply no_live_on; auto.
+  - (* OStart *)
+    destruct (valid s h && _) eqn:Hv; [|split; [auto|repeat constructor]].
+    apply andb_prop in Hv. destruct Hv as [Hv _]. apply valid_livei in Hv.
+    destruct (h_kind (hget s h)) eqn:Hk.
+    + pose proof (KI_poll_start s h (mand m ALLEV) K Hv (mand_idem_all m)) as X.
+      destruct (poll_start s h (mand m ALLEV)) as [s1 rc]. cbn [fst snd] in *. split; [auto|repeat constructor].
+    + destruct (mzero (mand m ALLEV)) eqn:Hz; cbn [fst snd]; (split; [|repeat constructor]); auto.
+      apply KI_io_start; auto. apply mand_allev_errhup.
+  - (* OStop *)
+    destruct (valid s h) eqn:Hv; [|split; [auto|repeat constructor]]. apply valid_livei in Hv.
+    destruct (h_kind (hget s h)) eqn:Hk.
+    + cbn [fst snd]. split; [|repeat constructor]. apply (KI_poll_stop s h K Hv).
+    + destruct (mzero (mand m ALLEV)); cbn [fst snd]; (split; [|repeat constructor]); auto.
+      apply KI_io_stop; auto. apply Hv.
+  - (* OClose *)
+    destruct (valid s h) eqn:Hv; [|split; [auto|repeat constructor]]. apply valid_livei in Hv.
+    destruct (h_kind (hget s h)) eqn:Hk; cbn [fst snd]; (split; [|repeat constructor]).
+    + destruct (KI_poll_stop s h K Hv) as [K1 [Hun [Hgone [_ [Hfd _]]]]]. cbv zeta in *.
+      apply KI_close_flag; auto. rewrite Hfd. auto.
+    + destruct (KI_io_close s h K Hv) as [K1 [Hun Hgone]]. apply KI_close_flag; auto.
+  - (* OFeed *)
+    destruct (valid s h && is_raw (hget s h)); [|split; [auto|repeat constructor]].
+    cbn [fst snd]. split; [|repeat constructor]. unfold io_feed. destruct (_ || _); auto.
+    eapply KI_same; [..|exact K]; reflexivity.
+  - (* OActive *)
+    case_all; cbn [fst snd]; (split; [auto|repeat constructor]).
+  - split; [auto|constructor].
+Qed.
+
+(* ---- the registration loop ------------------------------------------------------------
+   [ideal_step s i]: what processing watcher i of the queue must achieve: the kernel has
+   its descriptor with exactly the requested mask and w->events = w->pevents.  While
+   the queue is being worked off, the invariant holds of the state with the rest of the
+   queue put back ([set_wq _ r]). *)
+Definition ideal_ep (s : state) (fd : Z) (m : mask) : Z -> nat -> option mask :=
+  match fdt s fd with Some o => ep_set (ep s) fd o (Some m) | None => ep s end.
+
+Definition ideal_step (s : state) (i : nat) : state :=
+  set_ep (hupd s i (fun h => h_set_ev h (h_pev h)))
+         (ideal_ep s (h_fd (hget s i)) (h_pev (hget s i))).
+
+Lemma KI_ideal_step s i r s' :
+  KI (set_wq s (i :: r)) ->
+  length (hs s') = length (hs s) ->
+  (forall j, kview (hget s' j) = kview (hget (hupd s i (fun h => h_set_ev h (h_pev h))) j)) ->
+  reg s' = reg s -> fdt s' = fdt s -> pairs s' = pairs s -> sq s' = sq s -> strict s' = strict s ->
+  aborted s' = aborted s ->
+  (forall x y, ep s' x y = ideal_ep s (h_fd (hget s i)) (h_pev (hget s i)) x y) ->
+  KI (set_wq s' r).
+Proof.
+  intros K Hlen Hv Hr Hf Hp Hq Hs Ha He.
+  destruct K. cbn [wq set_wq reg hs sq strict aborted fdt ep pairs] in *.
+  change (forall j, hget (set_wq s (i :: r)) j = hget s j) with (forall j, hget s j = hget s j) in *.
+  assert (Hg0 : forall j, hget (set_wq s (i :: r)) j = hget s j) by reflexivity.
+  assert (Hri : reg s (h_fd (hget s i)) = Some i) by (apply k_wq0; left; auto).
+  destruct (k_reg0 _ _ Hri) as [Hli [_ Hpz]].
+  assert (Hl : (i < length (hs s))%nat) by apply Hli.
+  destruct (fdt s (h_fd (hget s i))) as [o|] eqn:Hfo; [|exfalso; apply (k_fdopen0 i Hli); auto].
+  unfold ideal_ep in He. rewrite Hfo in He.
+  assert (Hfd : forall j, h_fd (hget s' j) = h_fd (hget s j)).
+  { intro j. pose proof (Hv j) as X. unfold kview in X. rewrite hget_hupd in X. destruct (_ && _); cbn in X; congruence. }
+  assert (Hpv : forall j, h_pev (hget s' j) = h_pev (hget s j)).
+  { intro j. pose proof (Hv j) as X. unfold kview in X. rewrite hget_hupd in X. destruct (_ && _); cbn in X; congruence. }
+  assert (Hcl : forall j, h_closed (hget s' j) = h_closed (hget s j)).
+  { intro j. pose proof (Hv j) as X. unfold kview in X. rewrite hget_hupd in X. destruct (_ && _); cbn in X; congruence. }
+  assert (Hevo : forall j, j <> i -> h_ev (hget s' j) = h_ev (hget s j)).
+  { intros j Hn. pose proof (Hv j) as X. unfold kview in X. rewrite hget_hupd_other in X by auto. congruence. }
+  assert (Hevi : h_ev (hget s' i) = h_pev (hget s i)).
+  { pose proof (Hv i) as X. unfold kview in X. rewrite hget_hupd_same in X by auto. cbn in X. congruence. }
+  assert (Hlv : forall j, livei (set_wq s' r) j <-> livei (set_wq s (i :: r)) j).
+  { intro j. unfold livei. cbn [hs set_wq]. change (hget (set_wq s' r) j) with (hget s' j).
+    change (hget (set_wq s (i :: r)) j) with (hget s j). rewrite Hlen, Hcl. tauto. }
+  assert (Hother : forall fd j, reg s fd = Some j -> j <> i -> fd <> h_fd (hget s i)).
+  { intros fd j Hc Hn ->. congruence. }
+  inversion k_wqnd0 as [|? ? Hnotin Hnd]; subst.
+  constructor; cbn [wq set_wq reg hs sq strict aborted fdt ep pairs]; try congruence.
+  - intro j. change (hget (set_wq s' r) j) with (hget s' j). rewrite Hpv. apply k_pev0.
+  - intros fd j Hc. rewrite Hr in Hc. rewrite Hlv. change (hget (set_wq s' r) j) with (hget s' j).
+    rewrite Hfd, Hpv. apply k_reg0; auto.
+  - intros fd j Hc. rewrite Hr in Hc. unfold synced. change (hget (set_wq s' r) j) with (hget s' j).
+    cbn [fdt ep set_wq]. rewrite Hf. destruct (Nat.eq_dec j i) as [->|Hn].
+    + right. destruct (k_reg0 _ _ Hc) as [_ [Hfi _]]. subst fd. rewrite Hevi, Hpv. split; auto.
+      exists o. split; auto. rewrite He. apply ep_set_same.
+    + destruct (k_sync0 _ _ Hc) as [[Hin|Hin]|[E [o' [F G]]]]; [congruence|left; auto|].
+      right. rewrite Hevo, Hpv by auto. split; auto. exists o'. split; auto. rewrite He.
+      rewrite ep_set_other; auto. eapply Hother; eauto.
+  - intros j Hin. change (hget (set_wq s' r) j) with (hget s' j). rewrite Hr, Hfd. apply k_wq0. right; auto.
+  - intros fd j Hc Hev. rewrite Hr in Hc. change (hget (set_wq s' r) j) with (hget s' j) in Hev. rewrite Hf.
+    destruct (Nat.eq_dec j i) as [->|Hn].
+    + destruct (k_reg0 _ _ Hc) as [_ [Hfi _]]. subst fd. exists o. split; auto. rewrite He, ep_set_same. discriminate.
+    + rewrite Hevo in Hev by auto. destruct (k_ev0 _ _ Hc Hev) as [o' [F G]]. exists o'. split; auto.
+      rewrite He, ep_set_other; auto. eapply Hother; eauto.
+  - intros j Hc. change (hget (set_wq s' r) j) with (hget s' j) in *. rewrite Hr, Hfd in Hc. rewrite Hpv.
+    destruct (Nat.eq_dec j i) as [->|Hn]; [contradiction|]. rewrite Hevo by auto. apply k_unreg0; auto.
+  - intros a b Ha' Hb'. rewrite !Hlv in *. change (hget (set_wq s' r) a) with (hget s' a).
+    change (hget (set_wq s' r) b) with (hget s' b). rewrite !Hfd. apply k_uniq0; auto.
+  - intros j Hj. rewrite Hlv in Hj. change (hget (set_wq s' r) j) with (hget s' j). rewrite Hf, Hfd. apply k_fdopen0; auto.
+  - intros fd o' m Hm. rewrite He in Hm. rewrite Hf. unfold ep_set in Hm.
+    destruct ((fd =? h_fd (hget s i)) && (o' =? o)%nat) eqn:Hb.
+    + apply andb_prop in Hb. destruct Hb as [H1 H2]. apply Z.eqb_eq in H1. apply Nat.eqb_eq in H2. subst.
+      split; auto. exists i. rewrite Hlv. change (hget (set_wq s' r) i) with (hget s' i). rewrite Hfd. auto.
+    + destruct (k_ep0 _ _ _ Hm) as [X [j [Y Z]]]. split; auto. exists j. rewrite Hlv.
+      change (hget (set_wq s' r) j) with (hget s' j). rewrite Hfd. auto.
+  - intros fd o' Hx. rewrite Hf in Hx. rewrite Hp. auto.
+Qed.
+
+Lemma EEXIST_nz : (EEXIST =? 0) = false. Proof. reflexivity. Qed.
+
+(* without the control ring: epoll_ctl per watcher, ADD falling back to MOD *)
+Lemma KI_reg_loop_noring q : forall s, ring s = false -> KI (set_wq s q) -> KI (set_wq (reg_loop s q) []).
+Proof.
+  induction q as [|i r IH]; intros s Hring K; cbn [reg_loop]; auto.
+  set (s1 := hupd s i (fun h => h_set_ev h (h_pev h))).
+  change (ring s1) with (ring s). rewrite Hring.
+  set (fd := h_fd (hget s i)). set (m := h_pev (hget s i)).
+  assert (Hri : reg s fd = Some i) by (apply (k_wq _ K); left; auto).
+  destruct (k_reg _ K _ _ Hri) as [Hli _].
+  pose proof (k_fdopen _ K i Hli) as Hfo. cbn [fdt set_wq] in Hfo.
+  change (hget (set_wq s (i :: r)) i) with (hget s i) in Hfo. fold fd in Hfo.
+  destruct (fdt s fd) as [o|] eqn:Hf; [|congruence].
+  assert (Hstep : forall s', hs s' = hs s1 -> reg s' = reg s -> fdt s' = fdt s -> pairs s' = pairs s ->
+                  sq s' = sq s -> strict s' = strict s -> aborted s' = aborted s -> ring s' = ring s ->
+                  ep s' = ep_set (ep s) fd o (Some m) -> KI (set_wq (reg_loop s' r) [])).
+  { intros s' H1 H2 H3 H4 H5 H6 H7 H8 H9. apply IH; [congruence|].
+    eapply (KI_ideal_step s i r s'); eauto.
+    - rewrite H1. apply hupd_length.
+    - intro j. unfold hget. rewrite H1. reflexivity.
+    - intros x y. unfold ideal_ep. fold fd. rewrite Hf, H9. reflexivity. }
+  assert (Hmod : ep s fd o <> None -> KI (set_wq (reg_loop (fst (epoll_ctl s1 CMod fd m)) r) [])).
+  { intros Hx. apply Hstep; unfold epoll_ctl; change (fdt s1 fd) with (fdt s fd); rewrite Hf;
+      change (ep s1 fd o) with (ep s fd o); destruct (ep s fd o); try congruence; reflexivity. }
+  assert (Hmode : ep s fd o <> None -> snd (epoll_ctl s1 CMod fd m) = 0).
+  { intros Hx. unfold epoll_ctl; change (fdt s1 fd) with (fdt s fd); rewrite Hf;
+      change (ep s1 fd o) with (ep s fd o); destruct (ep s fd o); try congruence; reflexivity. }
+  destruct (mzero (h_ev (hget s i))) eqn:Hz.
+  - (* ADD *)
+    destruct (ep s fd o) as [m'|] eqn:He.
+    + assert (Hx : epoll_ctl s1 CAdd fd m = (s1, EEXIST)).
+      { unfold epoll_ctl. change (fdt s1 fd) with (fdt s fd). rewrite Hf. change (ep s1 fd o) with (ep s fd o). rewrite He. reflexivity. }
+      rewrite Hx, EEXIST_nz.
+      assert (Hne : Some m' <> None) by discriminate.
+      pose proof (Hmod Hne) as Y. pose proof (Hmode Hne) as Z.
+      destruct (epoll_ctl s1 CMod fd m) as [s3 e2]. cbn [fst snd] in *. subst e2. cbn. exact Y.
+    + assert (Hx : epoll_ctl s1 CAdd fd m = (set_ep s1 (ep_set (ep s1) fd o (Some m)), 0)).
+      { unfold epoll_ctl. change (fdt s1 fd) with (fdt s fd). rewrite Hf. change (ep s1 fd o) with (ep s fd o). rewrite He. reflexivity. }
+      rewrite Hx. cbn. apply Hstep; reflexivity.
+  - (* MOD *)
+    assert (Hne : ep s fd o <> None).
+    { destruct (k_ev _ K fd i Hri Hz) as [o' [F G]]. cbn [fdt ep set_wq] in F, G. congruence. }
+    pose proof (Hmod Hne) as Y. pose proof (Hmode Hne) as Z.
+    destruct (epoll_ctl s1 CMod fd m) as [s3 e2]. cbn [fst snd] in *. subst e2. cbn. exact Y.
 Qed.
